@@ -316,7 +316,9 @@ class Environment:
         if until is not None:
             if not isinstance(until, Event):
                 at = until
-                if at <= self._now:
+                # (SimPy rejects at == now as well; usim.py documents and tests run(until=now):
+                # "stops exactly at the given time" - the run ends within the current time step)
+                if at < self._now:
                     raise ValueError('until must be in the future')
                 until = Event(self)
                 until._ok = True
